@@ -1,4 +1,5 @@
 import TongoProofs.Lemmas.ClientSM
+import TongoProofs.Lemmas.ClientLive
 /-! Property C12 — concurrent lite-client requests each receive their own answer.
 
 Property theorems only (invariants and their preservation proofs: `TongoProofs/Lemmas/ClientSM.lean`). They are about
@@ -411,6 +412,23 @@ theorem reconnect_recoverable (s : State) (h : Reachable idOf nConn s) (c : Nat)
         all_goals
           intro c' hne; simp [hne]
 
+/-- LIVENESS of reconnection, with the fairness assumptions as hypotheses about the execution (predicates defined in
+`Lemmas/ClientLive.lean`), not prose. For every infinite execution `e` of the transition system from a reachable state:
+IF (F1) a `Connected` socket whose peer has closed does not stay writable for ever (`SockDies`), (F2) a write on a dead
+socket eventually returns its error (`WeakFair` for every `writeFail k` and for `pingDone c`), (F3) the ping goroutine's
+`Send` on a dead socket and a spawned `reconnect()` get the mutex whenever it is free infinitely often (`StrongFair` for
+`pingFail c` and `reconnectStart c` — sync.Mutex is starvation-free), and (F4) the server eventually completes a new
+handshake (`WeakFair` for `reconnectOk c`), THEN connection `c` is Connected, writable and read again INFINITELY OFTEN:
+after every drop — mid-request, idle, or during a reconnect — it comes back. No bound on the number of drops or on what
+other goroutines do in between is assumed. (The proof uses the persistence of each recovery step's enabledness:
+`step_status_connecting`, `step_sockDead_persists`, `step_writer_call_persists`, `step_spawned_mono`, ….) -/
+theorem reconnect_live (e : Exec idOf nConn) (c : Nat)
+    (hF1 : SockDies e c) (hF4 : WeakFair e (.reconnectOk c))
+    (hF2 : ∀ k, WeakFair e (.writeFail k)) (hF2' : WeakFair e (.pingDone c))
+    (hF3 : StrongFair e (.reconnectStart c)) (hF3' : StrongFair e (.pingFail c)) :
+    ∀ i, ∃ j, i ≤ j ∧ Healthy ((e.st j).conn c) :=
+  reconnect_live_core e c hF1 hF4 hF2 hF2' hF3 hF3'
+
 /-- … and later calls can succeed: in a reachable state where the connection the round-robin counter points at is
 healthy, its mutex free and its reader idle, and the peer reads, a fresh call runs register, pickConn, Send, and — once
 the server's answer for its id is delivered — returns that answer. -/
@@ -444,6 +462,24 @@ example :
       [.register 0, .pickConn 0, .sendBegin 0, .writeDone 0, .deliver 0 (.answer 100 .malformed),
        .deliver 0 (.answer 100 (.good 10)), .timeout 0, .unregister 0]).map (fun s => s.pc 0)
       = some (.returned .timeout) := by decide
+
+/-- the fairness hypotheses of `reconnect_live` are satisfiable: the execution in which nothing but `peerDrain 0`
+ever happens (every connection stays healthy) meets all six -/
+example : ∃ e : Exec (fun k => 100 + k) 2, SockDies e 0 ∧ WeakFair e (.reconnectOk 0) ∧ (∀ k, WeakFair e (.writeFail k)) ∧
+    WeakFair e (.pingDone 0) ∧ StrongFair e (.reconnectStart 0) ∧ StrongFair e (.pingFail 0) := by
+  have hstep : step (fun k => 100 + k) 2 init (.peerDrain 0) = some init := by
+    simp only [step, init, Option.some.injEq]
+    congr
+    funext j
+    simp only [set_apply]
+    split <;> rfl
+  refine ⟨⟨fun _ => init, fun _ => .peerDrain 0, fun _ => hstep, ⟨[], rfl⟩⟩, ?_, ?_, ?_, ?_, ?_, ?_⟩
+  · intro i; exact ⟨i, Nat.le_refl i, by simp [init]⟩
+  · intro i; exact ⟨i, Nat.le_refl i, Or.inl (by simp [step, init])⟩
+  · intro k i; exact ⟨i, Nat.le_refl i, Or.inl (by simp [step, init])⟩
+  · intro i; exact ⟨i, Nat.le_refl i, Or.inl (by simp [step, init])⟩
+  · intro h; obtain ⟨j, _, hj⟩ := h 0; simp [step, init] at hj
+  · intro h; obtain ⟨j, _, hj⟩ := h 0; simp [step, init] at hj
 
 example : IdsDistinct (fun k => 100 + k) := by intro a b h; simpa using h
 
